@@ -69,7 +69,7 @@ add("C33", "lang_mc", "exploration",
 
 comp_note = ("Trusted: one universe schema (objects, interface, union, enum, input objects, custom scalar, Mutation + @exposeField) and menu-based program enumeration (mc/comp_mc/src/progx.rs): every combination of menu selections up to k nodes, nesting <= 2-3, in program templates (single field + entrypoint; child field reused under two parents; client field on a type without id; cyclic pairs; parameterised client fields; parent and child overlapping in nested linked fields; client pointers with concrete, abstract and list targets, also through a child client field; declaration shapes on every kind of parent type with entrypoints). Programs are compiled by the real compiler from a real project directory in /dev/shm, each shard in its own process.")
 add("C08", "comp_mc", "exploration",
-    "Every program of the families (general, arguments, abstract types, cycles: every pair of selection sets for two client fields that may select themselves and each other, parameterised client fields, overlap, pointers, declaration shapes) plus every single-token mutation (delete / duplicate / replace by each of 14 tokens; quick: delete only) of every iso literal and of the schema and extension of the checked-in demo projects, is compiled by the real batch compiler in a crash-isolated worker process; a panic, abort, stack overflow or a failure without diagnostics is a violation, attributed to the exact program.",
+    "Every program of the families (general, arguments, abstract types, cycles: every pair of selection sets for two client fields that may select themselves and each other, parameterised client fields, overlap, pointers, declaration shapes) every generated schema of a product of structural dimensions (root type names, shape of id, Node interface, union / interfaces, seven @exposeField forms, nested lists, recursive input objects: 5376 schemas with adapted programs), plus every single-token mutation (delete / duplicate / replace by each of 14 tokens; quick: delete only) of every iso literal and of the schema and extension of the checked-in demo projects, is compiled by the real batch compiler in a crash-isolated worker process; a panic, abort, stack overflow or a failure without diagnostics is a violation, attributed to the exact program.",
     comp_note, "bounded exhaustive program enumeration on the real compiler with process-level crash isolation", "2/C08")
 add("C09", "comp_mc", "exploration",
     "For every accepted program of the families, every query_text / refetch query_text artifact is evaluated to the string the runtime reads (swc, cooked string) and validated against the schema: parses (relay graphql-syntax), fields exist, leaf/composite shape, arguments defined/required/coercible, variables declared/used/compatible (also inside object values), fragment conditions applicable, response names mergeable.",
